@@ -20,6 +20,7 @@ structure PInv (tbl : List (Ep × String)) (sv : String → Option (Bool × Ep))
   att_bound : ∀ nm, nm ∈ att → ∃ ep, sv nm = some (true, ep) ∧ ep.isDefault = false
   closed   : ∀ nm ep, sv nm = some (false, ep) → ep = {}
   addr     : ∀ nm o ep, sv nm = some (o, ep) → ep.isDefault = false → ep.addr ≠ "0.0.0.0"
+  ports    : ∀ ep nm, (ep, nm) ∈ tbl → 1024 ≤ ep.port
 
 theorem Ep.default_isDefault : ({} : Ep).isDefault = true := by decide
 
@@ -77,12 +78,13 @@ theorem PInv.close {tbl sv att} (h : PInv tbl sv att) (nm : String) (o : Bool) (
     by_cases hxn : x = nm
     · subst hxn; simp at hx; rw [← hx.2] at hd; simp [Ep.default_isDefault] at hd
     · rw [setS_other _ _ _ _ hxn] at hx; exact h.addr x o' ep hx hd
+  · intro ep x hx; exact h.ports ep x (hsub _ hx).1
 
 theorem PInv.opened {tbl sv att} (h : PInv tbl sv att) (nm : String) (b : Ep)
     (hs : sv nm = some (false, b)) :
     PInv tbl (setS sv nm (some (true, {}))) att := by
   have hd := Ep.default_isDefault
-  obtain ⟨h1, h2, h3, h4, h5, h6, h7⟩ := h
+  obtain ⟨h1, h2, h3, h4, h5, h6, h7, h8⟩ := h
   constructor
   · exact h1
   · intro ep x hx; have := h2 ep x hx; grind [setS]
@@ -91,13 +93,14 @@ theorem PInv.opened {tbl sv att} (h : PInv tbl sv att) (nm : String) (b : Ep)
   · intro x hx; have := h5 x hx; grind [setS]
   · intro x ep hx; grind [setS]
   · intro x o ep hx; grind [setS]
+  · exact h8
 
 /-- a successful bind: a free, concrete, non-default endpoint is appended -/
 theorem PInv.bind {tbl sv att} (h : PInv tbl sv att) (nm : String) (b ep : Ep)
     (hs : sv nm = some (true, b)) (hb : b.isDefault = true) (hfree : tbl.lookup ep = none)
-    (hnd : ep.isDefault = false) (haddr : ep.addr ≠ "0.0.0.0") :
+    (hnd : ep.isDefault = false) (haddr : ep.addr ≠ "0.0.0.0") (hport : 1024 ≤ ep.port) :
     PInv (tbl ++ [(ep, nm)]) (setS sv nm (some (true, ep))) att := by
-  obtain ⟨h1, h2, h3, h4, h5, h6, h7⟩ := h
+  obtain ⟨h1, h2, h3, h4, h5, h6, h7, h8⟩ := h
   have hfree' := (lookup_none_iff tbl ep).mp hfree
   have hnatt : nm ∉ att := by
     intro hc; obtain ⟨e, he1, he2⟩ := h5 nm hc; grind
@@ -127,10 +130,15 @@ theorem PInv.bind {tbl sv att} (h : PInv tbl sv att) (nm : String) (b ep : Ep)
   · intro x hx; have := h5 x hx; grind [setS]
   · intro x e hx; grind [setS]
   · intro x o e hx; grind [setS]
+  · intro e x hx
+    rw [List.mem_append] at hx
+    rcases hx with hx | hx
+    · exact h8 e x hx
+    · simp at hx; rw [hx.1]; exact hport
 
 theorem PInv.remove {tbl sv att} (h : PInv tbl sv att) (nm : String) (b : Ep)
     (hs : sv nm = some (false, b)) : PInv tbl (setS sv nm none) att := by
-  obtain ⟨h1, h2, h3, h4, h5, h6, h7⟩ := h
+  obtain ⟨h1, h2, h3, h4, h5, h6, h7, h8⟩ := h
   constructor
   · exact h1
   · intro ep x hx; have := h2 ep x hx; grind [setS]
@@ -139,11 +147,12 @@ theorem PInv.remove {tbl sv att} (h : PInv tbl sv att) (nm : String) (b : Ep)
   · intro x hx; have := h5 x hx; grind [setS]
   · intro x ep hx; grind [setS]
   · intro x o ep hx; grind [setS]
+  · exact h8
 
 theorem PInv.new {tbl sv att} (h : PInv tbl sv att) (nm : String)
     (hs : sv nm = none) : PInv tbl (setS sv nm (some (false, {}))) att := by
   have hd := Ep.default_isDefault
-  obtain ⟨h1, h2, h3, h4, h5, h6, h7⟩ := h
+  obtain ⟨h1, h2, h3, h4, h5, h6, h7, h8⟩ := h
   constructor
   · exact h1
   · intro ep x hx; have := h2 ep x hx; grind [setS]
@@ -152,6 +161,7 @@ theorem PInv.new {tbl sv att} (h : PInv tbl sv att) (nm : String)
   · intro x hx; have := h5 x hx; grind [setS]
   · intro x ep hx; grind [setS]
   · intro x o ep hx; grind [setS]
+  · exact h8
 
 /-- an accepted socket receives the acceptor's endpoint without an entry -/
 theorem PInv.attach {tbl sv att att'} (h : PInv tbl sv att) (nm : String) (b ep : Ep)
@@ -159,7 +169,7 @@ theorem PInv.attach {tbl sv att att'} (h : PInv tbl sv att) (nm : String) (b ep 
     (hnd : ep.isDefault = false) (haddr : ep.addr ≠ "0.0.0.0")
     (hatt : ∀ x, x ∈ att' ↔ x = nm ∨ x ∈ att) :
     PInv tbl (setS sv nm (some (true, ep))) att' := by
-  obtain ⟨h1, h2, h3, h4, h5, h6, h7⟩ := h
+  obtain ⟨h1, h2, h3, h4, h5, h6, h7, h8⟩ := h
   have hnone : ∀ e, (e, nm) ∉ tbl := by
     intro e hm; have := h2 e nm hm; grind
   constructor
@@ -173,6 +183,7 @@ theorem PInv.attach {tbl sv att att'} (h : PInv tbl sv att) (nm : String) (b ep 
     · have := h5 x (by grind); grind [setS]
   · intro x e hx; grind [setS]
   · intro x o e hx; grind [setS]
+  · exact h8
 
 def rebind (tbl : List (Ep × String)) (b : Ep) (src dst : String) : List (Ep × String) :=
   tbl.map (fun e => if e.1 == b && e.2 == src then (e.1, dst) else e)
@@ -221,7 +232,7 @@ theorem PInv.move {tbl sv att} (h : PInv tbl sv att) (src dst : String) (o : Boo
       (setS (setS sv dst (some (o, b))) src (some (false, {})))
       (att.map (fun x => if x = src then dst else x)) := by
   have hdef := Ep.default_isDefault
-  obtain ⟨h1, h2, h3, h4, h5, h6, h7⟩ := h
+  obtain ⟨h1, h2, h3, h4, h5, h6, h7, h8⟩ := h
   have hne : src ≠ dst := by intro hc; subst hc; simp [hs] at hd
   have hdatt : dst ∉ att := by
     intro hc; obtain ⟨e, he1, _⟩ := h5 dst hc; simp [hd] at he1
@@ -285,6 +296,12 @@ theorem PInv.move {tbl sv att} (h : PInv tbl sv att) (src dst : String) (o : Boo
     have := h6 x ep; have := h6 src b; grind [setS]
   · intro x o' ep hx
     have := h7 x o' ep; have := h7 src o b; grind [setS]
+  · intro ep x hx
+    rw [hmem] at hx
+    rcases hx with ⟨_, hx⟩ | ⟨_, ⟨hx, _⟩ | ⟨rfl, _, hx⟩⟩
+    · exact h8 ep x hx
+    · exact h8 ep x hx
+    · exact h8 _ _ hx
 
 /-- `ft` : forwarder id ↦ the socket it reaches (`none`: detached or not allocated);
     `flen` : number of forwarders allocated so far; `su` / `st` : (is open, forwarder id held)
